@@ -63,6 +63,7 @@ var targets = []target{
 	{"simple_tree_walker.go", "WalkerNode.Path"},
 	{"simple_tree_walker.go", "WalkerNode.HasChild"},
 	{"tree_handler_programmably.go", "validateTreeRoot"},
+	{"node.go", "Node.isDirectlyUnder"},
 }
 
 // struct types that are handled through pointers which the translated functions never find nil (a nil
